@@ -71,6 +71,9 @@ fn c03_rotate(n: usize) -> u8 {
     model::with_contract(&gw(), || {
         env.storage().instance().set(&DataKey::Epoch, &e);
         env.storage().instance().set(&DataKey::MinimumRotationDelay, &d);
+        // the rest of the configuration is present too (arbitrary values), as after any construction
+        env.storage().instance().set(&DataKey::PreviousSignerRetention, &kani::any::<u64>());
+        env.storage().instance().set(&DataKey::DomainSeparator, &any::b32(1));
         model::storage_set_if(has_t0, &gw(), 0, &k(&DataKey::LastRotationTimestamp), &model::val_of(&t0));
         model::storage_set_if(dup, &gw(), 1, &k(&DataKey::EpochBySignersHash(BytesN(h))), &model::val_of(&dup_epoch));
         model::storage_set_if(dup, &gw(), 1, &k(&DataKey::SignersHashByEpoch(dup_epoch)), &model::val_of(&BytesN(h)));
